@@ -9,7 +9,10 @@ Local Open Scope N_scope.
    (parts from different swarm workers may overtake each other) *)
 Inductive wsys_step_obs :=
 | WSysStep (who : N * N) (a : caction) (observed : list dmsg)
-| WSysBurst (who : N * N) (acts : list caction) (observed : list dmsg).
+| WSysBurst (who : N * N) (acts : list caction) (observed : list dmsg)
+(* the access list file was rewritten to [acl] (unreadable when [ok] = false) and the process got
+   SIGUSR1: a failed reload keeps the previous list *)
+| WSysReload (acl : list N) (ok : bool).
 
 Definition wsys_case : Type := nat * nat * nat * nat * acl_mode * list N * list wsys_step_obs.
 
@@ -64,18 +67,19 @@ Fixpoint run_burst (mode : acl_mode) (acl : list N) (cfg : wcfg) (cut ae : bool)
   end.
 
 Definition ws_sys_code_gen (lenient2 cut answer_empty : bool) (c : wsys_case) : N :=
-  let '(sw, k, max_scrape, max_offers, mode, acl, steps) := c in
+  let '(sw, k, max_scrape, max_offers, mode, acl0, steps) := c in
   let cfg := mkWcfg max_offers max_scrape 1000 1000 in
-  let fix go (i : N) (y : wsys) (l : list wsys_step_obs) : N :=
+  let fix go (i : N) (y : wsys) (acl : list N) (l : list wsys_step_obs) : N :=
     match l with
     | [] => 0
+    | WSysReload acl' ok :: t => go (N.succ i) y (if ok then acl' else acl) t
     | WSysStep who a observed :: t =>
         match wsys_gate mode acl cfg cut answer_empty k y who a with
         | Panic => N.succ i
         | Ok (y', model) =>
             let keys := who :: map sc_key (y_conns y) ++ map sc_key (y_conns y') in
             if obs_matches keys (if lenient2 then drop_err2 model else model) (if lenient2 then drop_err2 observed else observed)
-            then go (N.succ i) y' t else N.succ i
+            then go (N.succ i) y' acl t else N.succ i
         end
     | WSysBurst who acts observed :: t =>
         match run_burst mode acl cfg cut answer_empty k y who acts with
@@ -83,11 +87,11 @@ Definition ws_sys_code_gen (lenient2 cut answer_empty : bool) (c : wsys_case) : 
         | Ok (y', model) =>
             let keys := who :: map sc_key (y_conns y) ++ map sc_key (y_conns y') in
             if obs_matches_perm keys (if lenient2 then drop_err2 model else model) (if lenient2 then drop_err2 observed else observed)
-            then go (N.succ i) y' t else N.succ i
+            then go (N.succ i) y' acl t else N.succ i
         end
     end in
-  let bad := go 0 (wsys_init k) steps in
-  let relayed := existsb (fun s => match s with WSysStep who _ obs | WSysBurst who _ obs => existsb (fun m => negb (pair_eqb (dest m) who)) obs end) steps in
+  let bad := go 0 (wsys_init k) acl0 steps in
+  let relayed := existsb (fun s => match s with WSysStep who _ obs | WSysBurst who _ obs => existsb (fun m => negb (pair_eqb (dest m) who)) obs | WSysReload _ _ => false end) steps in
   let closed := existsb (fun s => match s with WSysStep _ CClose _ => true | _ => false end) steps in
   bad * 4 + (if relayed && closed then 3 else 1).
 
